@@ -236,12 +236,11 @@ def check_builtin(case):
             Xd = X.astype(np.int64) if case.get("counts_int64") else X  # the detector gets integers, the reference floats
             if case.get("as_float32"):
                 Xd = X.astype(np.float32)
-            if case.get("train_cols") == "fewer_columns" and p > 1:
-                det.fit(Xd[:, :1].copy())
-            elif case.get("train_cols") == "more_columns":
-                det.fit(np.hstack([Xd, Xd[::-1]]))
-            else:
-                det.fit(Xd)
+            Xfit = Xd[:, :1].copy() if case.get("train_cols") == "fewer_columns" and p > 1 else \
+                np.hstack([Xd, Xd[::-1]]) if case.get("train_cols") == "more_columns" else Xd
+            if K.rejects_other_width(lambda: PELT(make_cost(case["cost"]), case["penalty_scale"], msl), Xfit, Xd):
+                return {"nontrivial": False, "classes": ["other_number_of_columns_rejected"]}
+            det.fit(Xfit)
             Xp = K.used_buffer(det, Xd, history.endswith("frame")) if history and history.startswith("used_buffer") else Xd
             if history and history.startswith("predicted_on"):
                 K.related_predict(det, Xd, history)
